@@ -149,6 +149,15 @@ fn exec_nodevol(plan: &Plan, st: &mut Stats) -> Result<(), Violation> {
                 }
             }
         }
+        if plan.idx % 2 == 0 {
+            // the curves computed above stay cached in the paths only every other time: otherwise the encoder has to compute
+            // them itself, all with its one shared set of buffers
+            for ho in map.hit_objects.iter_mut() {
+                if let HitObjectKind::Slider(sl) = &mut ho.kind {
+                    sl.path.clear_curve();
+                }
+            }
+        }
         let text = match map.encode_to_string() {
             Ok(t) => t,
             Err(_) => return Ok(()),
